@@ -1034,6 +1034,16 @@ impl DcpsDomainParticipant {
                                         &publisher_qos,
                                     );
                                 if incompatible_qos_policy_list.is_empty() {
+                                    // An update of an already matched reader (same key, e.g. after a change of its
+                                    // user data) is not another match: the status does not change
+                                    let is_new_match = !data_writer.matched_subscription_list.iter().any(
+                                        |x| {
+                                            x.key()
+                                                == discovered_reader_data
+                                                    .dds_subscription_data
+                                                    .key()
+                                        },
+                                    );
                                     match data_writer.matched_subscription_list.iter_mut().find(
                                         |x| {
                                             x.key()
@@ -1050,12 +1060,15 @@ impl DcpsDomainParticipant {
                                             discovered_reader_data.dds_subscription_data.clone(),
                                         ),
                                     };
-                                    data_writer.publication_matched_status.current_count =
-                                        data_writer.matched_subscription_list.len() as i32;
-                                    data_writer.publication_matched_status.current_count_change +=
-                                        1;
-                                    data_writer.publication_matched_status.total_count += 1;
-                                    data_writer.publication_matched_status.total_count_change += 1;
+                                    if is_new_match {
+                                        data_writer.publication_matched_status.current_count =
+                                            data_writer.matched_subscription_list.len() as i32;
+                                        data_writer
+                                            .publication_matched_status
+                                            .current_count_change += 1;
+                                        data_writer.publication_matched_status.total_count += 1;
+                                        data_writer.publication_matched_status.total_count_change += 1;
+                                    }
 
                                     let unicast_locator_list = if discovered_reader_data
                                         .reader_proxy
@@ -1129,7 +1142,10 @@ impl DcpsDomainParticipant {
                                         .transport_writer
                                         .add_matched_reader(reader_proxy);
 
-                                    if data_writer
+                                    if !is_new_match {
+                                        // (no status change, no listener call; the status condition below still
+                                        // tells that the data of a matched subscription changed)
+                                    } else if data_writer
                                         .listener_mask
                                         .is_enabled(&StatusKind::PublicationMatched)
                                     {
@@ -1602,7 +1618,7 @@ impl DcpsDomainParticipant {
                                         &subscriber_qos,
                                     );
                                 if incompatible_qos_policy_list.is_empty() {
-                                    data_reader.add_matched_publication(
+                                    let is_new_match = data_reader.add_matched_publication(
                                         discovered_writer_data.dds_publication_data.clone(),
                                     );
                                     let unicast_locator_list = if discovered_writer_data
@@ -1667,7 +1683,11 @@ impl DcpsDomainParticipant {
                                         .transport_reader
                                         .add_matched_writer(&writer_proxy);
 
-                                    if data_reader
+                                    if !is_new_match {
+                                        // An update of an already matched writer does not change the matched
+                                        // status: no listener is called. The status condition below still tells
+                                        // that the data of a matched publication changed
+                                    } else if data_reader
                                         .listener_mask
                                         .is_enabled(&StatusKind::SubscriptionMatched)
                                     {
